@@ -287,19 +287,42 @@ func genC03(c *Ctx) {
 				okAll = false
 				break
 			}
+			// a client that reads slowly: the writer sits inside Write with the first reply while the
+			// other answers are made, and further requests are received, executed and answered
+			stall := r.Intn(4) == 0
+			if stall {
+				atomic.StoreInt32(&s.paused, 1)
+				time.Sleep(time.Millisecond)
+				c.count("slow-reader-round")
+			}
 			// every permutation for up to 5 outstanding is reached over the seeds; random beyond
 			for _, j := range r.Perm(K) {
 				s.release(base + j)
-				if r.Intn(3) == 0 {
+				if r.Intn(3) == 0 && !stall {
 					s.waitFrames(s.nframes()+1, 2*time.Millisecond)
 				}
 			}
-			if !s.waitFrames(f0+K, 10*time.Second) {
+			extra := 0
+			if stall {
+				time.Sleep(time.Duration(200+r.Intn(800)) * time.Microsecond)
+				extra = 1 + r.Intn(4)
+				var more [][]byte
+				var mrids []int
+				for j := 0; j < extra; j++ {
+					more = append(more, s.send(uint16(200+j), func(fc *g.Fcall) error { return g.PackTstat(fc, 0) }))
+					mrids = append(mrids, base+K+j)
+				}
+				s.write(more...)
+				s.waitEntered(mrids, f0, 2*time.Second)
+				time.Sleep(time.Duration(200+r.Intn(800)) * time.Microsecond)
+				atomic.StoreInt32(&s.paused, 0)
+			}
+			if !s.waitFrames(f0+K+extra, 10*time.Second) {
 				s.quiet(5 * time.Millisecond)
 			} else {
 				s.quiet(2 * time.Millisecond)
 			}
-			if !replyOracle(c, s, "C03", line, base, base+K, f0, nil) {
+			if !replyOracle(c, s, "C03", line, base, base+K+extra, f0, nil) {
 				okAll = false
 			}
 		}
